@@ -437,6 +437,10 @@ fn corpus_regexes() -> Vec<(String, R)> {
         ("(é|€|😀)+a".to_string(), cat(R::Plus(Box::new(alt(alt(ch('é'), ch('€')), ch('😀')))), ch('a'))),
         ("[^ab]+b".to_string(), cat(R::Plus(Box::new(R::Class(vec![('a', 'b')], true))), ch('b'))),
         ("a.c".to_string(), cat(cat(ch('a'), R::Dot), ch('c'))),
+        // a broad repeated class (it subsumes token slices) followed by a restrictive rest inside the same lexeme
+        ("[^a]*a+".to_string(), cat(R::Star(Box::new(R::Class(vec![('a', 'a')], true))), R::Plus(Box::new(ch('a'))))),
+        ("[^a]*ab".to_string(), cat(cat(R::Star(Box::new(R::Class(vec![('a', 'a')], true))), ch('a')), ch('b'))),
+        ("[^b]*b[^a]*a+".to_string(), cat(cat(cat(R::Star(Box::new(R::Class(vec![('b', 'b')], true))), ch('b')), R::Star(Box::new(R::Class(vec![('a', 'a')], true)))), R::Plus(Box::new(ch('a'))))),
         ("(ab)?(cd)*e".to_string(), cat(cat(R::Opt(Box::new(lit("ab"))), R::Star(Box::new(lit("cd")))), ch('e'))),
     ]
 }
@@ -547,6 +551,22 @@ pub fn run(ctx: &Ctx) -> Coverage {
                 }
             }
         }
+        // and with the default token slices switched on (the slicer's shortcuts must not change the language)
+        if job.r.size() <= 4 || job.entry == "from_regex_corpus" {
+            let fs = Factory::new(&vocab, &Slices::Default).unwrap();
+            let os = product_check(job, &dfa, &fs, &vocab, max_states);
+            if os.refused.is_none() {
+                ctx.count("sliced_products", 1);
+                ctx.states.fetch_add(os.states, Ordering::Relaxed);
+                ctx.transitions.fetch_add(os.transitions, Ordering::Relaxed);
+                ctx.validated.fetch_add(os.transitions, Ordering::Relaxed);
+                if let Some(mut v) = os.violation {
+                    v.check = format!("{}_with_slices", v.check);
+                    v.detail["slices"] = json!("default");
+                    ctx.violation(v);
+                }
+            }
+        }
         let out = product_check(job, &dfa, &f, &vocab, max_states);
         ctx.count("jobs_run", 1);
         if let Some(e) = out.refused {
@@ -582,6 +602,6 @@ pub fn run(ctx: &Ctx) -> Coverage {
     }
     let _ = BTreeMap::<u8, u8>::new();
     Coverage::StateGraph {
-        rule: format!("every regex AST with <= {max_size} nodes over atoms a, b, [ab], [^a], ., é, €, 😀 and ops concat | * + ? {{m,n}} (?i) & ~ (quick: plus size 4 over atoms a, b; thorough: size 5 over a reduced atom set), through from_regex, Lark /regex/ terminals and structural Lark terminals; for each: BFS over the product (real engine state, reference DFA state) over a 46-token vocabulary (single bytes, whole and partial UTF-8 characters, multi-character tokens), all tokens compared in every product state; the same product again under a canonical tokenizer, where a state with forced tokens must have exactly one viable next byte in the reference and no match; a closed product is a complete language-equality result over that alphabet; reference DFA cross-checked against regex-automata for every regex that has a text form"),
+        rule: format!("every regex AST with <= {max_size} nodes over atoms a, b, [ab], [^a], ., é, €, 😀 and ops concat | * + ? {{m,n}} (?i) & ~ (quick: plus size 4 over atoms a, b; thorough: size 5 over a reduced atom set), through from_regex, Lark /regex/ terminals and structural Lark terminals; for each: BFS over the product (real engine state, reference DFA state) over a 46-token vocabulary (single bytes, whole and partial UTF-8 characters, multi-character tokens), all tokens compared in every product state; the same product again with the default token slices on, and under a canonical tokenizer, where a state with forced tokens must have exactly one viable next byte in the reference and no match; a closed product is a complete language-equality result over that alphabet; reference DFA cross-checked against regex-automata for every regex that has a text form"),
     }
 }
